@@ -197,7 +197,7 @@ def run(ctx):
         clamped = False
         for n_ in ast.walk(mm.node):
             if isinstance(n_, ast.If) and any(isinstance(x, ast.Name) and x.id == "start_addrs" for x in ast.walk(n_.test)) \
-                    and any(isinstance(x, ast.Compare) for x in ast.walk(n_.test)):
+                    and any(isinstance(x, (ast.Compare, ast.Call)) for x in ast.walk(n_.test)):
                 if any(isinstance(st_, ast.Assign) and any(isinstance(t_, ast.Name) and t_.id == "start_addrs" for t_ in st_.targets) for st_ in ast.walk(n_)):
                     clamped = True
         if not clamped:
@@ -240,6 +240,19 @@ def run(ctx):
             ctx.unknown("C20.3", sd, sd.node, "set_data write command", f"{len(q)} command sites")
         else:
             js = q[0].args[0]
+            # a piece of the command kept in a local f-string (header = f'#{len(str(n))}{n}') and put in whole stands for its own fields
+            local_fs = {}
+            for n in ast.walk(sd.node):
+                if isinstance(n, ast.Assign) and len(n.targets) == 1 and isinstance(n.targets[0], ast.Name) and isinstance(n.value, ast.JoinedStr):
+                    local_fs.setdefault(n.targets[0].id, []).append(n.value)
+            flat = []
+            for v in js.values:
+                if isinstance(v, ast.FormattedValue) and v.format_spec is None and isinstance(v.value, ast.Name) and len(local_fs.get(v.value.id, [])) == 1:
+                    flat.extend(local_fs[v.value.id][0].values)
+                else:
+                    flat.append(v)
+            if len(flat) != len(js.values):
+                js = ast.copy_location(ast.JoinedStr(values=flat), js)
             slots = [src_of(v.value) for v in js.values if isinstance(v, ast.FormattedValue)]
             loop = None
             for p in body_nodes(sd):
@@ -263,7 +276,9 @@ def run(ctx):
                     missing.append(f"`{n_}` is not assigned in the block loop")
                 elif defs.get(n_) not in (f"{chunk}.size", f"len({chunk})"):
                     why.append(f"`{n_}` is not the block's size")
-                if defs.get(k_) is None:
+                if k_.replace(" ", "") == f"len(str({n_}))":
+                    pass            # the digit count written in place
+                elif defs.get(k_) is None:
                     missing.append(f"`{k_}` is not assigned in the block loop")
                 elif defs.get(k_) != f"len(str({n_}))":
                     why.append(f"`{k_}` is not the digit count of the block length")
